@@ -112,6 +112,40 @@ def run(facts, body, args):
     return res
 
 
+def layout_of(facts):
+    """{field: lowest bit} of the packed word as HLCTimestamp::new builds it (None when the packer is not a clean tiling): the
+    reference for any other code that does arithmetic on the word"""
+    cache = facts.__dict__.setdefault('_hlc_layout', {})
+    if 'v' in cache:
+        return cache['v']
+    cache['v'] = None
+    try:
+        adts = [n for n in facts.adts if n.startswith('datacake_crdt::') and n.endswith('::HLCTimestamp')]
+        if len(adts) != 1:
+            return None
+        bs = [b for b in facts.bodies.values() if b.crate == 'datacake_crdt' and not b.d['promoted'] and b.name == adts[0] + '::new']
+        if len(bs) != 1:
+            return None
+        outs = run(facts, bs[0], [('dur', 'd'), bv_field('counter', 16), bv_field('node', 8)])
+        words = {r[3][0].v[1] for r, _tr in outs if r[0] == 'adt' and r[3] and r[3][0].v[0] == 'bv'}
+        if len(words) != 1 or len(outs) == 0:
+            return None
+        pos = {}
+        for j, bt in enumerate(words.pop()):
+            if isinstance(bt, tuple):
+                pos.setdefault(bt[0], {})[bt[1]] = j
+        lay = {}
+        for f, w in FIELDS.items():
+            got = pos.get(f, {})
+            if sorted(got) != list(range(w)) or [got[i] for i in range(w)] != list(range(got[0], got[0] + w)):
+                return None
+            lay[f] = got[0]
+        cache['v'] = lay
+    except (Unmodelled, BitOverlap, absint.NeedChoice, IndexError, TypeError, KeyError, AttributeError):
+        return None
+    return cache['v']
+
+
 def check_layout(ctx, facts, rule):
     from orswot_abs import _fallback
     T = None
